@@ -54,7 +54,17 @@ def run(ctx):
         if A.defined(fi, "linux") is False or fi.parent is not None:
             continue
         has = False
-        for c in calls_in(fi.node):
+        helpers = []
+        for c0 in calls_in(fi.node):
+            nm0 = None
+            if isinstance(c0.func, ast.Attribute) and dotted(c0.func.value) in ("self", "cls"):
+                nm0 = f"{fi.cls}.{c0.func.attr}" if fi.cls else None
+            elif isinstance(c0.func, ast.Name):
+                nm0 = c0.func.id
+            h0 = repo.func(pm, nm0, required=False) if nm0 else None
+            if h0 is not None and h0.node is not fi.node:
+                helpers.append(h0)
+        for c in list(calls_in(fi.node)) + [c1 for h0 in helpers for c1 in calls_in(h0.node)]:
             if isinstance(c.func, ast.Attribute) and c.func.attr in ("find", "rfind", "index",
                                                                     "rindex", "rpartition",
                                                                     "partition", "rsplit") \
@@ -277,6 +287,8 @@ def run(ctx):
     alts = alternatives(tt)
     hasnone = ("const", None) in alts
     dv = [a for a in alts if a[0] in ("dval", "dget")]
+    if dv and dv[0][0] == "dget" and len(dv[0]) > 3 and dv[0][3] == ("const", None):
+        hasnone = True          # .get(key) -> None when the entry is missing
     good = hasnone and dv and dv[0][2][0] == "call" and dv[0][2][1] == "int" \
         and "st_rdev" in pretty(dv[0][1])
     if good:
